@@ -487,6 +487,71 @@ def out4(units, R):
     R.floor('OUT4', 'allocator calls in ensure', len(allocs), 1 if any(callee_name(c) in wr for c in allocs) else 2)
     # 2./3. what a non-NULL result promises, decided path by path with linear expressions over needed / offset / length
     _ensure_contract(u, fn, cfg, R)
+    # 5. a refused reallocate leaves the old block allocated: every way out of ensure with that NULL result releases it first
+    par = fn.parents()
+    nre = 0
+    for c in allocs:
+        if not (callee_name(c) is None and indirect_field(c) == 'reallocate'):
+            continue
+        pa = par.get(c['id'])
+        while pa is not None and pa.get('k') == 'cast':
+            pa = par.get(pa['id'])
+        if not (pa is not None and pa.get('k') == 'bin' and pa['op'] == '=' and is_ref(pa['l'])):
+            continue
+        rv = strip_casts(pa['l'])['d']
+        old = expr_str(strip_casts(c['args'][0])) if c.get('args') else None
+        start = node_containing(cfg, c)
+        nre += 1
+
+        def releases_old(nd):
+            root = getattr(nd, 'expr', None)
+            if root is None:
+                return False
+            for x in walk(root):
+                if x.get('k') == 'call' and ((callee_name(x) is None and indirect_field(x) == 'deallocate') or callee_name(x) in ('cJSON_free', 'free')) \
+                        and x.get('args') and expr_str(strip_casts(x['args'][0])) == old:
+                    return True
+            return False
+
+        def null_edge(nd, label):
+            # False when the edge contradicts "the result is NULL"
+            if nd.kind != 'branch' or label is None or label[0] not in ('T', 'F'):
+                return True
+            e = strip_casts(nd.expr)
+            pol = True      # truth of "rv is non-NULL"
+            while e.get('k') == 'un' and e['op'] == '!':
+                e = strip_casts(e['e'])
+                pol = not pol
+            if e.get('k') == 'bin' and e['op'] in ('==', '!=') and (is_null_const(e['l']) or is_null_const(e['r'])):
+                o_ = strip_casts(e['l'] if is_null_const(e['r']) else e['r'])
+                if o_.get('k') == 'ref' and o_.get('d') == rv:
+                    nonnull_when_true = (e['op'] == '!=') == pol
+                    return (label[0] == 'T') != nonnull_when_true
+                return True
+            if e.get('k') == 'ref' and e.get('d') == rv:
+                return (label[0] == 'T') != pol
+            return True
+        seen = set()
+        work = [start.id]
+        leak = None
+        while work and leak is None:
+            x = work.pop()
+            if x in seen:
+                continue
+            seen.add(x)
+            nd = cfg.nodes[x]
+            if x != start.id and releases_old(nd):
+                continue
+            if nd.kind == 'return' or x == cfg.exit.id:
+                leak = nd
+                break
+            for (y, label) in cfg.succ[x]:
+                if null_edge(nd, label):
+                    work.append(y)
+        R.ob('OUT4', fn, c, 'when the reallocation is refused the old block is released before ensure gives up', leak is None,
+             'every way out with a NULL result passes a release of %s' % old if leak is None else
+             'with %s == NULL the return at line %d is reached without a release of %s: the block stays allocated and nothing refers to it '
+             'any more' % (strip_casts(pa['l'])['n'], leak.line, old), key='realloc-fail')
     # 4. PrintPreallocated set-up
     pp = u.fn('cJSON_PrintPreallocated')
     want = {'buffer': 'buffer', 'length': 'length', 'noalloc': 1, 'offset': 0}
